@@ -205,4 +205,45 @@ theorem inv_run (env : Env) : ∀ (evs : List Ev) (hist : List (Req × Up)) (s :
 theorem inv_reachable (env : Env) (evs : List Ev) : Inv env (reqsOf evs) (runEv env St.empty evs) := by
   simpa using inv_run env evs [] St.empty (inv_empty env [])
 
+/-! ## The byte strings hashed by `toCacheKey` determine the structural keys -/
+
+theorem beBytes_length (n a : Nat) : (beBytes n a).length = n := by
+  induction n generalizing a with
+  | zero => rfl
+  | succ n ih => simp [beBytes, ih]
+
+theorem beBytes_inj (n : Nat) : ∀ a b, a < 256 ^ n → b < 256 ^ n → beBytes n a = beBytes n b → a = b := by
+  induction n with
+  | zero => intro a b ha hb _; simp at ha hb; omega
+  | succ n ih =>
+    intro a b ha hb h
+    simp only [beBytes] at h
+    have hl : (beBytes n (a / 256)).length = (beBytes n (b / 256)).length := by
+      simp [beBytes_length]
+    obtain ⟨h1, h2⟩ := List.append_inj h hl
+    have ha' : a / 256 < 256 ^ n := Nat.div_lt_of_lt_mul (by rw [Nat.pow_succ, Nat.mul_comm] at ha; exact ha)
+    have hb' : b / 256 < 256 ^ n := Nat.div_lt_of_lt_mul (by rw [Nat.pow_succ, Nat.mul_comm] at hb; exact hb)
+    have := ih _ _ ha' hb' h1
+    simp at h2
+    omega
+
+theorem fam_pow (f : Fam) : 2 ^ f.bits = 256 ^ f.alen := by cases f <;> decide
+
+theorem is6_inj (f g : Fam) (h : b2n f.is6 = b2n g.is6) : f = g := by
+  cases f <;> cases g <;> simp [Fam.is6, b2n] at h ⊢
+
+theorem b2n_inj (a b : Bool) (h : b2n a = b2n b) : a = b := by
+  cases a <;> cases b <;> simp [b2n] at h ⊢
+
+theorem u16_inj (a b : Nat) (ha : a < 65536) (hb : b < 65536) (h0 : a % 256 = b % 256)
+    (h1 : a / 256 % 256 = b / 256 % 256) : a = b := by omega
+
+theorem keyHead_inj (qt qc qt' qc' : Nat) (d d' : Bool) (f f' : Fam) (l l' : List Nat)
+    (h1 : qt < 65536) (h2 : qc < 65536) (h1' : qt' < 65536) (h2' : qc' < 65536)
+    (h : keyHead qt qc d f ++ l = keyHead qt' qc' d' f' ++ l') :
+    qt = qt' ∧ qc = qc' ∧ d = d' ∧ f = f' ∧ l = l' := by
+  simp only [keyHead, List.cons_append, List.nil_append, List.cons.injEq] at h
+  obtain ⟨a0, a1, c0, c1, hd, hf, hl⟩ := h
+  exact ⟨u16_inj _ _ h1 h1' a0 a1, u16_inj _ _ h2 h2' c0 c1, b2n_inj _ _ hd, is6_inj _ _ hf, hl⟩
+
 end Agd.ECS
